@@ -291,6 +291,83 @@ def rerun_check(case):
     return Res(list(seen.items()), o=(same_object, post_check), tr=3)
 
 
+# ------------------------------------------------------------------ call histories on converter objects
+HIST_OPS = ("P", "O", "N", "I")       # process(), process(overwrite=True), a new converter object, init_params() again with another window
+
+
+def hist_cases(tier, seed):
+    depth = 4 if tier == "quick" else 5
+    return [(a, pc, first, depth) for a in ([0, 1, 2, 3, 3, 0], [1, 3, 3, 1, 1, 3]) for pc in (True, False) for first in HIST_OPS]
+
+
+def hist_check(case):
+    """every sequence of calls after a first split: whatever was skipped or forced, the shank files are the split of the original after every call"""
+    assign, post_check, first, depth = case
+    root = os.path.join(synth.proc_scratch(), "c03h")
+    sites = np2.sites_for(assign)
+    data = np2.content(1500, 7, "ramp")
+    seen = {}
+    ntr = 0
+    nwords = 0
+    outcomes = set()
+    for rest in itertools.product(HIST_OPS, repeat=depth - 1):
+        word = ("P", first) + rest
+        nwords += 1
+        np2.clean(root)
+        ap = np2.make_session(root, "NP2.4", sites, data)
+        orig_sha = np2.sha1(ap)
+        orig_meta = spikeglx.read_meta_data(ap.with_suffix(".meta"))
+        conv = neuropixel.NP2Converter(ap, post_check=post_check, compress=False)
+        conv.init_params(nwindow=600)
+        res = []
+        for i, op in enumerate(word):
+            ctx = "shank map %r post_check=%s, calls %s (P=process, O=process(overwrite=True), N=new converter, I=init_params again)" % (assign, post_check, "".join(word[:i + 1]))
+            try:
+                if op == "P":
+                    res.append(conv.process())
+                elif op == "O":
+                    st = conv.process(overwrite=True)
+                    res.append(st)
+                    if st != 1:
+                        seen.setdefault("history:forced-status", "%s: the forced split returned %r" % (ctx, st))
+                elif op == "N":
+                    try:
+                        conv.sr.close()
+                    except Exception:
+                        pass
+                    conv = neuropixel.NP2Converter(ap, post_check=post_check, compress=False)
+                    conv.init_params(nwindow=600)
+                    res.append("n")
+                else:
+                    conv.init_params(nwindow=648)
+                    res.append("i")
+            except Exception as e:
+                seen.setdefault("history:exc:%s" % type(e).__name__, "%s: raised %s: %s" % (ctx, type(e).__name__, e))
+                break
+            ntr += 1
+            before = len(seen)
+            sub = {}
+            _compare_split(root, data, sites, sub, ctx)
+            for k, m in sub.items():
+                seen.setdefault("history:" + k, m)
+            if sub:
+                break
+        else:
+            sub = {}
+            _reconstruct_and_compare(root, orig_sha, orig_meta, sub, "shank map %r, calls %s, then reconstruction" % (assign, "".join(word)))
+            for k, m in sub.items():
+                seen.setdefault("history:" + k, m)
+        try:
+            conv.sr.close()
+        except Exception:
+            pass
+        outcomes.add(tuple(res))
+        if len(seen) > 4:
+            break
+    shutil.rmtree(root, ignore_errors=True)
+    return Res(list(seen.items()), o=(post_check, first, len(outcomes)), tr=ntr, x=dict(histories=nwords))
+
+
 # ------------------------------------------------------------------ recordings longer than the reconstructor's window
 def long_cases(tier, seed):
     nss = (60000, 60001, 67000, 120000) if tier == "quick" else (59999, 60000, 60001, 60012, 67000, 119999, 120000, 120001, 125000, 180011)
@@ -338,6 +415,9 @@ CHECK = {
         Clause("windows", "window sizes x recording lengths", cases=window_cases, check=window_check),
         Clause("compressed", "compressed source / compressed shank files / compressed reconstruction", cases=cbin_cases, check=cbin_check),
         Clause("rerun", "split followed by a forced re-split on the same / a fresh converter object", cases=rerun_cases, check=rerun_check),
+        Clause("call-histories", "every sequence (4 calls quick / 5 thorough after the first split) of process(), process(overwrite=True), new converter object and init_params(): "
+               "after every call the shank files are the split of the original, a forced split is carried out, and reconstruction gives the original back",
+               cases=hist_cases, check=hist_check),
         Clause("long", "recordings around and beyond the 60000-sample default windows of converter and reconstructor", cases=long_cases, check=long_check),
     ],
 }
